@@ -69,8 +69,8 @@ func (p *Parser) parseDeactivateRequest(payload []byte) (*model.DeactivateReques
 }
 
 func (p *Parser) validateDeactivateRequest(req *model.DeactivateRequest) error {
-	if req.DidSuffix == "" {
-		return errors.New("missing did suffix")
+	if err := p.validateDidSuffix(req.DidSuffix); err != nil {
+		return err
 	}
 
 	if req.SignedData == "" {
